@@ -197,6 +197,13 @@ impl<'a> ProtobufReader<'a> {
     ) -> Result<Vec<<T as ReadableType>::Type>, <Self as Reader>::Error> {
         let mut vec = Vec::new();
 
+        if let State::Root { .. } = self.state {
+            // A list directly inside of a list: there is no
+            // field number the elements of the inner list could be identified by, the loop below
+            // would see the same range again and again and never terminate.
+            return Err(Error::unexpected_format(Format::LengthDelimited));
+        }
+
         while let Some(range) = self.next_tag_range::<false>() {
             let mut state = State::Root { range };
             core::mem::swap(&mut self.state, &mut state);
